@@ -177,7 +177,7 @@ def run(rep, tier: str, seed: int) -> None:
                              else case["cls"])
                 rep.violation(
                     f"solve:{failure}:{sig_class}",
-                    f"grammar {case['grammar']} constraint {case['text']!r} settings {cc.settings_key(case['settings'])} "
+                    f"grammar {case['grammar']} constraint {case['text']!r} settings {cc.settings_key(case['settings'])}{' ' + str(case['extra_kwargs']) if case.get('extra_kwargs') else ''} "
                     f"start_symbol {case['start_symbol']}: solve() call #{i + 1} returned {call.get('str', call.get('repr'))!r}; "
                     f"oracle: open={call.get('open')} derivation-tree={call.get('valid')} in-language={call.get('member')} "
                     f"satisfies={call.get('eval')} (expected closed, valid, member, satisfying)",
